@@ -105,8 +105,20 @@ func newCacheAPI(proto, file string) *cacheAPI {
 	return c
 }
 
+// annHeader gives an announcement's message header. The header's clock fields (IPFIX export time; v9 system up-time
+// and UNIX seconds) are the exporter's business: for every second key they run BACKWARDS from version to version (a
+// stepped clock, a reboot), for the others forwards - the order of announcements is the order in which they arrive.
+func annHeader(k concKey, v int) []uint32 {
+	if k.ID%2 == 0 {
+		t := uint32(2000000000 - 3600*v)
+		return []uint32{t, t, 3, 4}
+	}
+	t := uint32(1000000000 + 3600*v)
+	return []uint32{t, t, 3, 4}
+}
+
 func (c *cacheAPI) write(k concKey, v int) {
-	b, _ := wire.EncodeFlow(c.proto, []uint32{1, 2, 3, 4}, []wire.Set{tplSetOf(c.proto, verTemplateFor(k, v))})
+	b, _ := wire.EncodeFlow(c.proto, annHeader(k, v), []wire.Set{tplSetOf(c.proto, verTemplateFor(k, v))})
 	if c.proto == "ipfix" {
 		ipfix.NewDecoder(net.IP(k.Addr), b).Decode(c.ic)
 	} else {
@@ -121,7 +133,7 @@ func (c *cacheAPI) writeSet(k concKey, v int) {
 	k2, k3 := k, k
 	k2.ID, k3.ID = k.ID+2000, k.ID+1000
 	ts := []*wire.Template{verTemplateFor(k2, v), verTemplateFor(k, v), verTemplateFor(k3, v)}
-	b, _ := wire.EncodeFlow(c.proto, []uint32{1, 2, 3, 4}, []wire.Set{tplSetOf(c.proto, ts...)})
+	b, _ := wire.EncodeFlow(c.proto, annHeader(k, v), []wire.Set{tplSetOf(c.proto, ts...)})
 	if c.proto == "ipfix" {
 		ipfix.NewDecoder(net.IP(k.Addr), b).Decode(c.ic)
 	} else {
